@@ -251,7 +251,7 @@ def parse_where(s):
         m = re.match(r'^(\w+)\s*(=|!=|<>|>=|<=|>|<)\s*(.+)$', p)
         if m:
             conj.append((m.group(1), m.group(2).replace('<>', '!='), m.group(3).strip())); continue
-        m = re.match(r"^(\w+)\s+LIKE\s+(.+)$", p, re.I)
+        m = re.match(r"^(\w+)\s+LIKE\s+(\S+)(?:\s+ESCAPE\s+\S+)?$", p, re.I)
         if m:
             conj.append((m.group(1), 'like', m.group(2))); continue
         m = re.match(r"^(\w+)\s+IN\s*\((.+)\)$", p, re.I)
